@@ -199,7 +199,10 @@ impl TcpFlow {
 
         let mut sorted_data = data.clone();
 
-        sorted_data.sort_by_key(|tcp_data| tcp_data.sequence);
+        // Sequence numbers wrap around at 2^32: order the segments by their signed distance from
+        // the first stored segment instead of by the raw number.
+        let base = sorted_data.first().map_or(0, |first| first.sequence);
+        sorted_data.sort_by_key(|tcp_data| tcp_data.sequence.wrapping_sub(base) as i32);
 
         let mut full_data = Vec::new();
         for tcp_data in sorted_data {
